@@ -146,6 +146,28 @@ func parseGroup(ms, ts string) *Group {
 	return g
 }
 
+// encodeV0: sticky user data in the old schema (StickyAssignorUserDataV0: array of (string topic, int32 array), no
+// generation), written by hand so that the Plan-level harness needs nothing unexported
+func encodeV0(topics map[string][]int32) []byte {
+	var b []byte
+	put32 := func(x int32) { b = append(b, byte(x>>24), byte(x>>16), byte(x>>8), byte(x)) }
+	names := make([]string, 0, len(topics))
+	for t := range topics {
+		names = append(names, t)
+	}
+	sort.Strings(names)
+	put32(int32(len(names)))
+	for _, t := range names {
+		b = append(b, byte(len(t)>>8), byte(len(t)))
+		b = append(b, t...)
+		put32(int32(len(topics[t])))
+		for _, p := range topics[t] {
+			put32(p)
+		}
+	}
+	return b
+}
+
 func groupTopics(parts []TP) map[string][]int32 {
 	out := map[string][]int32{}
 	for _, p := range parts {
@@ -162,7 +184,7 @@ func (g *Group) saramaInput() (map[string]sarama.ConsumerGroupMemberMetadata, ma
 		switch {
 		case m.UD.Kind == "-":
 		case m.UD.Kind == "v0":
-			meta.UserData, _ = sarama.VerifEncodeV0(groupTopics(m.UD.Parts))
+			meta.UserData = encodeV0(groupTopics(m.UD.Parts))
 		case m.UD.Kind == "bad":
 			meta.UserData = []byte{0x00, 0x00, 0x00, 0x02, 0x00}
 		case strings.HasPrefix(m.UD.Kind, "g"):
@@ -273,30 +295,6 @@ func sortTPs(l []TP) {
 		}
 		return l[i].P < l[j].P
 	})
-}
-
-func toV(a map[string][]TP) map[string][]sarama.VerifTP {
-	out := make(map[string][]sarama.VerifTP, len(a))
-	for m, l := range a {
-		v := make([]sarama.VerifTP, len(l))
-		for i, p := range l {
-			v[i] = sarama.VerifTP{Topic: p.T, Partition: p.P}
-		}
-		out[m] = v
-	}
-	return out
-}
-
-func fromV(a map[string][]sarama.VerifTP) map[string][]TP {
-	out := make(map[string][]TP, len(a))
-	for m, l := range a {
-		v := make([]TP, len(l))
-		for i, p := range l {
-			v[i] = TP{p.Topic, p.Partition}
-		}
-		out[m] = v
-	}
-	return out
 }
 
 func b01(b bool) string {
